@@ -122,7 +122,10 @@ class CoupledClimateNetwork(InteractingNetworks, ClimateNetwork):
                                     directed=directed,
                                     node_weight_type=node_weight_type,
                                     silence_level=silence_level)
-            InteractingNetworks.__init__(self, self.adjacency)
+            InteractingNetworks.__init__(self, adjacency=self.adjacency,
+                                         directed=self.directed,
+                                         node_weights=self.node_weights,
+                                         silence_level=self.silence_level)
         else:
             print("The two observables (layers) have to have the same number "
                   "of temporal sampling points!")
